@@ -141,10 +141,14 @@ def main(tier, seed, replay=None):
     from pyworkers.remote_context import RemoteContext
     from pyworkers.persistent_remote import PersistentRemoteWorker
     from harness.props.c11 import bounded
-    for nstuck in ((6,) if tier == 'quick' else (4, 6, 8)):
+    for nstuck, finished_first in (((6, True),) if tier == 'quick' else ((4, False), (6, True), (6, False), (8, True))):
         server = st.start_server()
         try:
             c = RemoteContext(1, target=st.dig_in, host=server.addr)
+            if finished_first:
+                # a worker of the same context which has come and gone before the others are created
+                w0 = PersistentRemoteWorker(None, host=server.addr, context=1)
+                w0.enqueue(0); w0.next_result(timeout=20); w0.wait(10)
             ws = [PersistentRemoteWorker(None, host=server.addr, context=1) for _ in range(nstuck)]
             for w in ws:
                 w.enqueue(1)
@@ -158,12 +162,12 @@ def main(tier, seed, replay=None):
             while time.time() < deadline and left:
                 left = [p for p in pids if p in st.descendants(1) or (os.path.exists(f'/proc/{p}') and open(f'/proc/{p}/stat').read().split()[2] != 'Z')]
                 time.sleep(0.2)
-            res.count('delete-with-stuck-workers'); res.case(('delete-stuck', nstuck), nontrivial=True,
-                                                             sample=dict(context_with_stuck_workers=nstuck, delete_answer=repr(r), answered_after_s=round(dur, 1), survivors=len(left)))
+            res.count('delete-with-stuck-workers'); res.case(('delete-stuck', nstuck, finished_first), nontrivial=True,
+                                                             sample=dict(context_with_stuck_workers=nstuck, a_finished_worker_before=finished_first, delete_answer=repr(r), answered_after_s=round(dur, 1), survivors=len(left)))
             if r != ('ok', True):
-                res.violation(dict(delete_with_stuck_workers=nstuck), f'deleting a context with {nstuck} workers that have to be forced answered {r!r} after {dur:.1f} s')
+                res.violation(dict(delete_with_stuck_workers=nstuck, a_finished_worker_before=finished_first), f'deleting a context with {nstuck} workers that have to be forced answered {r!r} after {dur:.1f} s')
             elif left:
-                res.violation(dict(delete_with_stuck_workers=nstuck), f'{len(left)} of the {nstuck} workers of the deleted context are still running 4 s after the delete was answered (True)')
+                res.violation(dict(delete_with_stuck_workers=nstuck, a_finished_worker_before=finished_first), f'{len(left)} of the {nstuck} workers of the deleted context are still running 4 s after the delete was answered (True)')
             for p in left:
                 try:
                     os.kill(p, 9)
